@@ -566,6 +566,14 @@ def check_cyl_mask(ck: Check, nr, nz, dr, dz, z0, m, creqs=None, cexpect=None, p
             if not (z0 - 1e-12 <= d.position[2] <= z0 + L + 1e-12) or abs(d.position[0]) + abs(d.position[1]) > 0:
                 ck.fail(f"droplet position {d.position} not on the axis inside the box", {**sig, "check": "position_in_box"}, case)
         else:
+            # returned droplets never overlap one another as equal-volume spheres under the periodic metric (along z: minimal image)
+            for a_i in range(len(em)):
+                for b_i in range(a_i + 1, len(em)):
+                    da, db = em[a_i], em[b_i]
+                    dzz = abs((da.position[2] - db.position[2] + L / 2) % L - L / 2)
+                    if dzz - (da.radius + db.radius) < -1e-9 * L:
+                        ck.fail(f"returned droplets at z={da.position[2]:.4g} (r={da.radius:.4g}) and z={db.position[2]:.4g} (r={db.radius:.4g}) overlap across the periodic "
+                                f"z boundary: periodic distance {dzz:.4g}", {**sig, "check": "C02_no_overlap", "across_periodic_z": bool(dzz < abs(da.position[2] - db.position[2]) - 1e-12)}, case)
             # components left out: only if their sphere overlaps that of another on-axis component at least as large
             # (the greedy overlap filter removes a droplet because of one that is present AT THAT MOMENT - C10 - which
             # may itself be removed later)
